@@ -4,44 +4,44 @@
 // Attached (cfg(kani)) as a child module of mithril-stm/src/membership_commitment/merkle_tree/commitment.rs.
 use super::*;
 use crate::membership_commitment::{MerkleBatchPath, MerkleTree, MerkleTreeLeaf};
-use digest::{FixedOutput, HashMarker, Output, OutputSizeUser, Update, consts::U2};
+use digest::{FixedOutput, HashMarker, Output, OutputSizeUser, Update, consts::U8};
 
-const IN_CAP: usize = 5; // longest input: two 2-byte digests (short digests keep every byte loop short)
-const TABLE_CAP: usize = 16;
+const IN_CAP: usize = 17; // longest input: two 8-byte digests (a 17th byte is kept to detect longer inputs)
+const TABLE_CAP: usize = 11;
 
+/// hash input packed into integers (first 16 bytes little-endian in `lo`, a 17th byte in `hi`): comparisons are integer
+/// equalities, no byte loops
 #[derive(Clone, Copy, PartialEq, Eq)]
 struct Entry {
     len: usize,
-    data: [u8; IN_CAP],
-    out: u16,
+    lo: u128,
+    hi: u8,
+    out: u64,
 }
 static mut TABLE: [Option<Entry>; TABLE_CAP] = [None; TABLE_CAP];
 static mut TABLE_N: usize = 0;
 static mut OVERFLOW: bool = false;
 
-/// the ideal hash: a function (memoised) that never collides (fresh output for each new input).
-/// Written without a loop (table slots compared by straight-line code) so that no unwinding bound applies to it.
-fn oracle(len: usize, data: [u8; IN_CAP]) -> u16 {
-    macro_rules! slot {
-        ($i:expr) => {
-            if $i < unsafe { TABLE_N } {
-                if let Some(e) = unsafe { TABLE[$i] } {
-                    if e.len == len && e.data == data {
+/// the ideal hash: a function (memoised) that never collides (fresh output for each new input)
+fn oracle(len: usize, lo: u128, hi: u8) -> u64 {
+    unsafe {
+        let mut i = 0;
+        while i < TABLE_CAP {
+            if i < TABLE_N {
+                if let Some(e) = TABLE[i] {
+                    if e.len == len && e.lo == lo && e.hi == hi {
                         return e.out;
                     }
                 }
             }
-        };
-    }
-    slot!(0); slot!(1); slot!(2); slot!(3); slot!(4); slot!(5); slot!(6); slot!(7);
-    slot!(8); slot!(9); slot!(10); slot!(11); slot!(12); slot!(13); slot!(14); slot!(15);
-    unsafe {
+            i += 1;
+        }
         if TABLE_N >= TABLE_CAP {
             OVERFLOW = true;
             return 0;
         }
-        let out = 0x100 + TABLE_N as u16;
-        TABLE[TABLE_N] = Some(Entry { len, data, out });
+        let out = 0x1000 + TABLE_N as u64;
+        TABLE[TABLE_N] = Some(Entry { len, lo, hi, out });
         TABLE_N += 1;
         out
     }
@@ -50,23 +50,26 @@ fn oracle(len: usize, data: [u8; IN_CAP]) -> u16 {
 #[derive(Clone)]
 pub(crate) struct IdealHash {
     len: usize,
-    data: [u8; IN_CAP],
+    lo: u128,
+    hi: u8,
 }
 impl Default for IdealHash {
     fn default() -> Self {
-        IdealHash { len: 0, data: [0; IN_CAP] }
+        IdealHash { len: 0, lo: 0, hi: 0 }
     }
 }
 impl HashMarker for IdealHash {}
 impl OutputSizeUser for IdealHash {
-    type OutputSize = U2;
+    type OutputSize = U8;
 }
 impl Update for IdealHash {
     fn update(&mut self, d: &[u8]) {
         let mut i = 0;
         while i < d.len() {
-            if self.len < IN_CAP {
-                self.data[self.len] = d[i];
+            if self.len < 16 {
+                self.lo |= (d[i] as u128) << (8 * self.len);
+            } else if self.len == 16 {
+                self.hi = d[i];
             } else {
                 unsafe { OVERFLOW = true };
             }
@@ -77,7 +80,7 @@ impl Update for IdealHash {
 }
 impl FixedOutput for IdealHash {
     fn finalize_into(self, out: &mut Output<Self>) {
-        let o = oracle(self.len, self.data);
+        let o = oracle(self.len, self.lo, self.hi);
         out.copy_from_slice(&o.to_le_bytes());
     }
 }
@@ -127,14 +130,13 @@ macro_rules! c09_harness {
     };
 }
 
-/// completeness: for every tree size n <= N_MAX and every non-empty sorted selection of leaves the generated batch proof
-/// verifies against the commitment
-fn check_completeness(n: usize) {
+/// completeness: for the tree of `n` symbolic leaves and the (concrete) non-empty selection `mask`, the generated batch
+/// proof verifies against the commitment. Shapes (n, mask) are enumerated by the harness list below: symbolic container
+/// sizes make CBMC's allocation reasoning explode, symbolic CONTENTS do not.
+fn check_completeness(n: usize, mask: u8) {
     let leaves = any_leaves(n);
     let tree = MerkleTree::<IdealHash, Leaf>::new(&leaves);
     let commitment = tree.to_merkle_tree_batch_commitment();
-    let mask: u8 = kani::any();
-    kani::assume(mask != 0 && (mask as usize) < (1usize << n));
     let mut idx = Vec::new();
     let mut sel = Vec::new();
     let mut i = 0;
@@ -149,23 +151,24 @@ fn check_completeness(n: usize) {
     let r = commitment.verify_leaves_membership_from_batch_path(&sel, &proof);
     let ok = r.is_ok();
     std::mem::forget(r);
-    kani::cover!(sel.len() == 2, "two leaves selected");
+    kani::cover!(true, "reachable");
     assert!(!unsafe { OVERFLOW }, "harness: ideal-hash table large enough");
     assert!(ok, "C09 completeness: the generated batch proof verifies against the commitment");
 }
 
-/// soundness: an ARBITRARY proof object (symbolic path values, symbolic indices) and arbitrary claimed leaves verify only
-/// if the indices are strictly increasing, in range, and every claimed leaf is the committed leaf at the position stated
+/// soundness: an ARBITRARY proof object of the given shape (k claimed leaves, nvals path values; symbolic path values,
+/// symbolic indices, symbolic claimed leaves) verifies only if the indices are strictly increasing, in range, and every
+/// claimed leaf is the committed leaf at the position stated
 fn check_soundness(n: usize, k: usize, nvals: usize) {
     let leaves = any_leaves(n);
     let tree = MerkleTree::<IdealHash, Leaf>::new(&leaves);
     let commitment = tree.to_merkle_tree_batch_commitment();
-    // arbitrary proof
     let raw_idx: [usize; 2] = kani::any();
     let raw_claim: [u8; 2] = kani::any();
-    let raw_vals: [u16; 3] = kani::any();
-    // keep the index arithmetic `i + next_power_of_two - 1` from overflowing (decided separately, C05)
-    kani::assume(raw_idx[0] < 64 && raw_idx[1] < 64);
+    let raw_vals: [u64; 3] = kani::any();
+    // wire indices kept small: `i + next_power_of_two - 1` overflow for huge indices is a C05 matter, and the number of
+    // levels walked depends on the index
+    kani::assume(raw_idx[0] < 8 && raw_idx[1] < 8);
     let mut idx = Vec::new();
     let mut claimed = Vec::new();
     let mut i = 0;
@@ -190,7 +193,7 @@ fn check_soundness(n: usize, k: usize, nvals: usize) {
     std::mem::forget(r);
     assert!(!unsafe { OVERFLOW }, "harness: ideal-hash table large enough");
     if ok {
-        kani::cover!(true, "some proof is accepted");
+        kani::cover!(true, "some proof of this shape is accepted");
         let mut j = 0;
         while j < 2 {
             if j < k {
@@ -205,11 +208,19 @@ fn check_soundness(n: usize, k: usize, nvals: usize) {
     }
 }
 
-c09_harness! { #[kani::unwind(8)] fn c09_completeness_n1() { check_completeness(1) } }
-c09_harness! { #[kani::unwind(8)] fn c09_completeness_n2() { check_completeness(2) } }
-c09_harness! { #[kani::unwind(8)] fn c09_completeness_n3() { check_completeness(3) } }
-c09_harness! { #[kani::unwind(8)] fn c09_completeness_n4() { check_completeness(4) } }
-c09_harness! { #[kani::unwind(8)] fn c09_soundness_n2_k1() { check_soundness(2, 1, kani::any::<u8>() as usize % 3) } }
-c09_harness! { #[kani::unwind(8)] fn c09_soundness_n3_k1() { check_soundness(3, 1, kani::any::<u8>() as usize % 4) } }
-c09_harness! { #[kani::unwind(8)] fn c09_soundness_n3_k2() { check_soundness(3, 2, kani::any::<u8>() as usize % 4) } }
-c09_harness! { #[kani::unwind(8)] fn c09_soundness_n4_k2() { check_soundness(4, 2, kani::any::<u8>() as usize % 4) } }
+macro_rules! c09_completeness { ($($name:ident = ($n:expr, $mask:expr)),* $(,)?) => { $( c09_harness! { #[kani::unwind(13)] fn $name() { check_completeness($n, $mask) } } )* }; }
+macro_rules! c09_soundness { ($($name:ident = ($n:expr, $k:expr, $v:expr)),* $(,)?) => { $( c09_harness! { #[kani::unwind(13)] fn $name() { check_soundness($n, $k, $v) } } )* }; }
+
+c09_completeness!(
+    c09_completeness_n1_m1 = (1, 1),
+    c09_completeness_n2_m1 = (2, 1), c09_completeness_n2_m2 = (2, 2), c09_completeness_n2_m3 = (2, 3),
+    c09_completeness_n3_m1 = (3, 1), c09_completeness_n3_m2 = (3, 2), c09_completeness_n3_m3 = (3, 3), c09_completeness_n3_m4 = (3, 4),
+    c09_completeness_n3_m5 = (3, 5), c09_completeness_n3_m6 = (3, 6), c09_completeness_n3_m7 = (3, 7),
+    c09_completeness_n4_m5 = (4, 5), c09_completeness_n4_m10 = (4, 10), c09_completeness_n4_m15 = (4, 15),
+);
+c09_soundness!(
+    c09_soundness_n2_k1_v0 = (2, 1, 0), c09_soundness_n2_k1_v1 = (2, 1, 1), c09_soundness_n2_k1_v2 = (2, 1, 2),
+    c09_soundness_n2_k2_v0 = (2, 2, 0), c09_soundness_n2_k2_v1 = (2, 2, 1),
+    c09_soundness_n3_k1_v1 = (3, 1, 1), c09_soundness_n3_k1_v2 = (3, 1, 2), c09_soundness_n3_k1_v3 = (3, 1, 3),
+    c09_soundness_n3_k2_v0 = (3, 2, 0), c09_soundness_n3_k2_v1 = (3, 2, 1), c09_soundness_n3_k2_v2 = (3, 2, 2),
+);
